@@ -9,6 +9,7 @@ import (
 	"go/types"
 	"golang.org/x/tools/go/ast/astutil"
 	"regexp"
+	"strconv"
 	"strings"
 
 	"golang.org/x/tools/go/packages"
@@ -531,7 +532,7 @@ func (m *moCtx) sortedAfter(fd *ast.FuncDecl, rs *ast.RangeStmt) bool {
 		call, _ := firstNode.(*ast.CallExpr)
 		okSort := false
 		if call != nil {
-			if fn := calleeFunc(m.info, call); fn != nil && fn.Pkg() != nil && fn.Pkg().Path() == "sort" && len(call.Args) >= 1 {
+			if fn := calleeFunc(m.info, call); fn != nil && fn.Pkg() != nil && isSortPkg(fn) && len(call.Args) >= 1 {
 				if id, ok := call.Args[0].(*ast.Ident); ok && m.info.Uses[id] == sl {
 					okSort = true
 				}
@@ -612,9 +613,11 @@ var _ = strings.TrimSpace
 func (m *moCtx) comparatorTotal(fd *ast.FuncDecl, call *ast.CallExpr, sl types.Object) string {
 	fn := calleeFunc(m.info, call)
 	switch funcKey(fn) {
-	case "sort.Strings", "sort.Ints", "sort.Float64s":
-		return ""
+	case "sort.Strings", "sort.Ints", "sort.Float64s", "slices.Sort":
+		return "" // the natural order of an ordered element type
 	case "sort.Slice", "sort.SliceStable":
+	case "slices.SortFunc", "slices.SortStableFunc":
+		return m.threeWayTotal(fd, call)
 	default:
 		return "unrecognised sort function " + funcKey(fn)
 	}
@@ -723,6 +726,129 @@ func (m *moCtx) comparatorTotal(fd *ast.FuncDecl, call *ast.CallExpr, sl types.O
 		}
 	}
 	return "comparator function " + cmp.Name() + " not found in the in-scope packages"
+}
+
+// isSortPkg: a function of package sort, or one of the sorting functions of package slices.
+func isSortPkg(fn *types.Func) bool {
+	if fn == nil || fn.Pkg() == nil {
+		return false
+	}
+	switch fn.Pkg().Path() {
+	case "sort":
+		return true
+	case "slices":
+		return strings.HasPrefix(fn.Name(), "Sort")
+	}
+	return false
+}
+
+// threeWayTotal: the comparator of slices.SortFunc / SortStableFunc returns 0 for equal elements
+// only. Accepted: `return cmp.Compare(a, b)` / `strings.Compare(a, b)` on the two parameters, and
+// the three-way form of a total "less" L of the package — L(a, b) gives a negative constant,
+// L(b, a) a positive one, anything else 0 — whatever the statements (switch, ifs) that say so.
+func (m *moCtx) threeWayTotal(fd *ast.FuncDecl, call *ast.CallExpr) string {
+	if len(call.Args) != 2 {
+		return "sort call shape"
+	}
+	lit, ok := ast.Unparen(call.Args[1]).(*ast.FuncLit)
+	if !ok {
+		return "comparator is not a function literal"
+	}
+	var ps []types.Object
+	for _, p := range lit.Type.Params.List {
+		for _, nm := range p.Names {
+			ps = append(ps, m.info.Defs[nm])
+		}
+	}
+	if len(ps) != 2 {
+		return "comparator parameters"
+	}
+	isP := func(x ast.Expr, o types.Object) bool {
+		id, ok := ast.Unparen(x).(*ast.Ident)
+		return ok && m.info.Uses[id] == o
+	}
+	if len(lit.Body.List) == 1 {
+		if rs, ok := lit.Body.List[0].(*ast.ReturnStmt); ok && len(rs.Results) == 1 {
+			if c2, ok := ast.Unparen(rs.Results[0]).(*ast.CallExpr); ok && len(c2.Args) == 2 {
+				switch funcKey(calleeFunc(m.info, c2)) {
+				case "cmp.Compare", "strings.Compare":
+					if (isP(c2.Args[0], ps[0]) && isP(c2.Args[1], ps[1])) || (isP(c2.Args[0], ps[1]) && isP(c2.Args[1], ps[0])) {
+						return ""
+					}
+				}
+			}
+		}
+	}
+	var pkgPath string
+	if ps[0].Pkg() != nil {
+		pkgPath = ps[0].Pkg().Path()
+	}
+	c := schema.CtxFor(m.e.Prog, pkgPath)
+	if c == nil {
+		return "comparator literal: package context not available"
+	}
+	rets, ok := returnsOfBody(c, lit.Body.List)
+	if !ok || len(rets) == 0 {
+		return "path conditions of the comparator literal not computable"
+	}
+	a, b := ps[0].Name(), ps[1].Name()
+	var lessName string
+	neg, pos, zero := "", "", ""
+	for _, r := range rets {
+		if len(r.results) != 1 {
+			return "comparator results"
+		}
+		v := strings.TrimSpace(r.results[0])
+		switch {
+		case strings.HasPrefix(v, "-"):
+			neg = r.cond
+		case v == "0":
+			zero = r.cond
+		default:
+			if _, err := strconv.Atoi(v); err != nil {
+				return "comparator returns " + v + ", not a constant"
+			}
+			pos = r.cond
+		}
+	}
+	_ = zero
+	// neg must be L(a, b), pos must be !L(a, b) && L(b, a) (or L(b, a))
+	re := regexp.MustCompile(`^(\w+)\(` + regexp.QuoteMeta(a) + `, ` + regexp.QuoteMeta(b) + `\)$`)
+	negT := strings.TrimSpace(neg)
+	for strings.HasPrefix(negT, "(") && strings.HasSuffix(negT, ")") && balanced(negT[1:len(negT)-1]) {
+		negT = strings.TrimSpace(negT[1 : len(negT)-1])
+	}
+	mm := re.FindStringSubmatch(negT)
+	if mm == nil {
+		return "the negative result is not returned exactly when less(" + a + ", " + b + ") holds: " + neg
+	}
+	lessName = mm[1]
+	want1 := lessName + "(" + b + ", " + a + ")"
+	imp := func(x, y string) (bool, bool) { return unsatWith(x, "!("+y+")") }
+	okPos, dec := imp("!"+lessName+"("+a+", "+b+") && "+want1, orTrue(pos))
+	okPos2, dec2 := imp(orTrue(pos), want1)
+	if !dec || !dec2 || !okPos || !okPos2 {
+		return "the positive result is not returned exactly when less(" + b + ", " + a + ") holds: " + pos
+	}
+	// L itself is total
+	for _, pkg := range m.e.Prog.InScopePkgs() {
+		for _, d := range load.AllFuncDecls(pkg) {
+			if d.Name.Name != lessName || d.Recv != nil || d.Body == nil || pkg.PkgPath != pkgPath {
+				continue
+			}
+			var qs []types.Object
+			for _, p := range d.Type.Params.List {
+				for _, nm := range p.Names {
+					qs = append(qs, pkg.TypesInfo.Defs[nm])
+				}
+			}
+			if len(qs) != 2 {
+				return "comparator function shape"
+			}
+			return m.e.comparatorTotal2(pkg, d, qs[0].Name(), qs[1].Name())
+		}
+	}
+	return "comparator function " + lessName + " not found"
 }
 
 // comparatorTotal2 decides that less(a, b) || less(b, a) holds for all distinct a, b, from the
